@@ -11,6 +11,7 @@ import Wx.Driver.Reconf
 import Wx.Driver.FsReal
 import Wx.Driver.Kbd
 import Wx.Driver.Reg
+import Wx.Driver.Span
 /-! one line in, one line out; `wxdriver <stream> [none|all]` -/
 
 partial def loop (f : String → String) (h : IO.FS.Stream) : IO Unit := do
@@ -32,6 +33,7 @@ def main (args : List String) : IO UInt32 := do
   | "pure" => loop Wx.Driver.Pure.handleLine stdin; return 0
   | "job" => loop (Wx.Driver.Job.handleLine (Wx.Driver.Job.cfgOf cfg)) stdin; return 0
   | "fsreal" => loop Wx.Driver.FsReal.handleLine stdin; return 0
+  | "span" => loop Wx.Driver.Span.handleLine stdin; return 0
   | "reg" => loop Wx.Driver.Reg.handleLine stdin; return 0
   | "kbd" => loop Wx.Driver.Kbd.handleLine stdin; return 0
   | "reconf" => loop Wx.Driver.Reconf.handleLine stdin; return 0
